@@ -61,6 +61,7 @@ type variant struct {
 	repl       uint32
 	maxQ       int
 	delay      bool
+	dial       []uint64 // a request / raft-transport thread making first contact with these nodes meanwhile
 }
 
 func dsID(n int) uuid.UUID { return world.ID(uint64(0xd0+n), 0xd5) }
@@ -149,6 +150,13 @@ func build(v variant) *explore.Scenario {
 					membershipDone = true
 				})
 			}
+			if len(v.dial) > 0 {
+				x.S.Spawn("n1/dialer", true, func() {
+					for _, id := range v.dial {
+						conn.Dial(id) // an error (node gone) is fine; not coming back is not
+					}
+				})
+			}
 			return func(end vrt.EndReason) *explore.Violation {
 				// fair continuation: let (virtual) time pass - fire every raft tick ticker for up to 60
 				// rounds, running to quiescence after each - so that a thread that only waits for an
@@ -182,6 +190,8 @@ func build(v variant) *explore.Scenario {
 						idle = strings.Contains(fn, "main.") && len(g.log) == 0
 					case t.Name == "n1/membership":
 						role = "membership-notifier"
+					case t.Name == "n1/dialer":
+						role = "dialer"
 					case strings.Contains(t.Name, "allocator.go"):
 						role = "allocator-loop"
 						idle = strings.HasSuffix(fn, "(*Allocator).run")
@@ -230,6 +240,8 @@ func main() {
 		{name: "node-added-during-create-underreplicated", script: []string{"create:1:1"}, membership: []member{add(3)}, repl: 2},
 		{name: "node-removed-during-create-delete", script: []string{"create:1:12", "delete:1"}, membership: []member{rem(2)}, repl: 2},
 		{name: "add-and-remove-during-create-create-delete", script: []string{"create:1:1", "create:2:1", "delete:1"}, membership: []member{add(3), rem(2)}, repl: 2, maxQ: 1},
+		{name: "node-removed-vs-first-dial", script: []string{"create:1:1"}, membership: []member{rem(2)}, dial: []uint64{2}, repl: 1},
+		{name: "node-added-and-removed-vs-first-dials", script: []string{"create:1:1"}, membership: []member{add(3), rem(3)}, dial: []uint64{3, 2}, repl: 1, maxQ: 1},
 		{name: "restart-burst-of-11-node-additions", script: []string{"create:1:1", "create:2:1"}, membership: burst, repl: 1, maxQ: 1},
 	}
 	var scs []*explore.Scenario
